@@ -29,6 +29,22 @@ CHECKS = {
          "Every sequence of <= r operations (server start/stop, client status changes, emissions in every mode) is executed on a real App in the full and the dedicated build; per event the number of local observations and wire sends must match the configuration, never twice.", "§5 C13"),
  "C16": ("stateless deviation-bounded exhaustive exploration of real Apps with pre-spawn mapping operations; per-frame adoption oracle",
          "All timings of the mapping relative to spawn, marker and visibility, with extra traffic, client-side despawn and a second client, under reliable-channel delays within the bound; one client entity per server entity and adoption are checked after every client frame.", "§5 C16"),
+ "C06": ("exhaustive enumeration of client-to-server byte strings (all <= 2/3-byte strings + varint-boundary grammar) against a real server App, in rlimit-ed worker subprocesses with an allocation recorder",
+         "Every input of the enumerated sets is injected on every client channel from unauthorized, authorized and disconnecting senders; the server must neither panic nor abort nor allocate out of proportion, and a well-behaved client must keep converging.", "§5 C06"),
+ "C10": ("exhaustive enumeration of payload-size tuples and relationship-graph histories on real Apps; every ordered subset of a tick's mutate messages delivered (split-delivery stage)",
+         "For every size tuple around the packing boundaries and every relationship history within the bound, all subsets / orders of one tick's mutate messages are delivered in separate re-executions; per-entity and per-group all-or-nothing and the size clauses are checked.", "§5 C10"),
+ "C11": ("stateless deviation-bounded exhaustive exploration of real Apps with a wire model of mutate messages and acknowledgements; per-tick wire-scan oracle, quiescence check",
+         "For every mutation history and every hold / drop / reorder pattern of mutate messages and acks within the bound (plus junk ack indices and ack timeouts), a value is in a tick's traffic iff it was edited after the newest acknowledged message containing the entity; at rest the server is silent and resumes.", "§5 C11"),
+ "C12": ("explicit-state BFS with complete state keys over the real ConfirmHistory / ServerMutateTicks / RepliconTick against a set model, plus split-delivery exploration of real Apps with tracking",
+         "All confirmation sequences within the bound (distances around the 64-tick window, bases at the wrap point and sign boundary) with all queries per state; end to end every ordered subset of a tick's mutate messages: the notification fires exactly once, only when complete.", "§5 C12"),
+ "C14": ("exhaustive enumeration of registration sequences: hash per real App, all-pairs comparison, cross-process comparison, real handshakes for all single-edit pairs",
+         "All well-formed registration sequences up to the bound are built as real Apps; equal sequences must hash equally (also in a second process), all pairs of different sequences differently; real handshakes for every single-edit pair.", "§5 C14"),
+ "C15": ("exhaustive enumeration of inputs to the real codec: boundary-class product round trips, all <= 2/3-byte strings, varint-boundary grammar",
+         "Round trip over the full product of index and generation boundary classes embedded in longer messages; decoding of every enumerated byte string yields Ok(valid) or Err, never a panic.", "§5 C15"),
+ "C17": ("exhaustive enumeration of insert/pop histories and bursts on the real LinkConditioner (through the cfg hook) against per-channel FIFOs; end-to-end bursts over loopback TCP with real Apps",
+         "Every history of the small alphabet and every burst size 1..48 on the real conditioner; plus real Apps over loopback for all listed counts, sizes, channels and directions (arrival timing can only make a run inconclusive, never failing).", "§5 C17"),
+ "C18": ("exhaustive enumeration of worlds x rule sets x target scenes on real Apps against the harness's own rule matching",
+         "Every world of 1-2 entities over all component subsets, every subset of six rules including overlapping ones, empty and pre-filled targets; exact expected export, serialize and read back.", "§5 C18"),
 }
 ALL = ["C%02d" % i for i in range(1, 19)]
 NOT_YET = "check not built yet in this session (work in progress; see DESIGN.md §5)"
